@@ -140,7 +140,11 @@ class Idle(BaseComponent):
 
 def run_to_quiescence(root, **kw):
     """Execute the real run() in this thread; returns the Idle component (iterations, exhausted)."""
-    idle = Idle(**kw).register(root)
+    idle = next((c for c in root.components if isinstance(c, Idle)), None)
+    if idle is None:
+        idle = Idle(**kw).register(root)
+    else:
+        idle.init(**kw)        # a second run() of the same manager: one idle stub, counters reset
     NBEvent.blocked = 0
     root.run()
     idle.blocked = NBEvent.blocked
